@@ -113,9 +113,11 @@ Definition mf_safe_test (cur : Z) (s : mfst) : bool :=
   let d := s32 (ms_safe s - cur) in
   (d <=? 0) || (d >=? Z.shiftr fw_GSM_MAX_FN 1) || (ms_safe s >=? fw_GSM_MAX_FN).
 
-(* tasks = tasks_tgt when safe, else tasks &= tasks_tgt *)
+(* safe: tasks = tasks_tgt; safe_fn = -1UL (the reached safe point is forgotten);  else: tasks &= tasks_tgt *)
 Definition mf_tasks_after (cur : Z) (s : mfst) : Z :=
   if mf_safe_test cur s then ms_tgt s else Z.land (ms_tasks s) (ms_tgt s).
+Definition mf_safe_after_test (cur : Z) (s : mfst) : Z :=
+  if mf_safe_test cur s then 4294967295 else ms_safe s.
 
 Definition set_rv (kind : Z) : Z := nth (Z.to_nat kind) fw_set_frames 0.
 
@@ -135,9 +137,10 @@ Definition safe_upd (cur : Z) (safe : Z) (c : call) : Z :=
    calls in order is the interleaving of the code *)
 Definition mf_schedule (cur : Z) (s : mfst) : fwres * mfst :=
   let t := mf_tasks_after cur s in
+  let sf := mf_safe_after_test cur s in
   match fw_mframe_schedule t cur with
-  | FwOk cs => (FwOk cs, mkmf t (ms_tgt s) (fold_left (safe_upd cur) cs (ms_safe s)))
-  | e => (e, mkmf t (ms_tgt s) (ms_safe s))
+  | FwOk cs => (FwOk cs, mkmf t (ms_tgt s) (fold_left (safe_upd cur) cs sf))
+  | e => (e, mkmf t (ms_tgt s) sf)
   end.
 
 (* histories of requests and ticks *)
@@ -180,11 +183,10 @@ Definition mf_task_calls (cur : Z) (s : mfst) (t : Z) : list call :=
 Definition mf_fires (cur : Z) (s : mfst) (task kind : Z) (sacch : bool) : bool :=
   existsb (call_is kind sacch) (mf_task_calls cur s task).
 
-(* safe_fn is "fresh" at frame cur: force-safe, or not more than half a hyperframe behind cur + 4 (cur + 4 = the latest value a set
-   started now can give it).  Established by mframe_reset() and by every started set, kept by every tick, lost only after more than
-   half a hyperframe without any started set *)
-Definition mf_fresh (cur : Z) (s : mfst) : bool :=
-  (ms_safe s >=? 2715648) || ((cur + 4 - ms_safe s) mod 2715648 <? 1357824).
+(* the invariant of safe_fn after the tick of frame cur: force-safe, or at most 4 frames ahead of cur modulo the hyperframe
+   (4 = 6 - 2: no sched set has more than 6 frames) *)
+Definition mf_inv (cur : Z) (s : mfst) : bool :=
+  (0 <=? ms_safe s) && ((2715648 <=? ms_safe s) || ((ms_safe s - cur) mod 2715648 <=? 4)).
 
 (* executable checkers for the sweeps of Proofs/MframeSchedP.v: every sched set the tables use has 2 .. 6 frames *)
 Definition chk_set_frames : bool :=
